@@ -63,7 +63,8 @@ def resave_event(data, spec, cycles, w):
             cur = ok_.read()
             again.append(cur)
     except Exception as e:
-        return {"op": "load", "chunks": tlv.to_json_nested(data, strict=False), "outcome": "save-raised:" + type(e).__name__, "obj": {"kind": "none"}}
+        types = sorted(set(__import__("re").findall(r'"mtype": "([^"]+)"', json.dumps(s1))))
+        return {"op": "save_failed", "outcome": "%s: %s" % (type(e).__name__, str(e)[:80]), "types": types}
     return {"op": "resave", "w": bool(w), "first": tlv.to_json_nested(y), "again": [tlv.to_json_nested(b) for b in again],
             "obj1": s1, "obj2": o2p, "pure": s1 == s1b}
 
@@ -128,5 +129,8 @@ def run(ctx):
     e0 = next(t for t in traces if "~mut" in t["id"])
     ctx.sample({"id": e0["id"], "op": e0["events"][0]["op"], "saves_compared": len(e0["events"][0].get("again", [])),
                 "cvals": [struct.unpack("<i", bytes(c["data"]))[0] for c in e0["events"][0].get("first", []) if c["id"] == "CVAL"][:8]})
-    fmt.validate(ctx, traces, "c05_resave", cans, path, xmx="24g")
+    def where(tr, m):
+        e = tr["events"][0]
+        return tr["id"] + (" types=%s" % ",".join(e["types"]) if e.get("op") == "save_failed" else "")
+    fmt.validate(ctx, traces, "c05_resave", cans, path, xmx="24g", where=where)
     ctx.exhaustive = False
